@@ -5,6 +5,10 @@
                     indexing, panics on an absent key -> false) or with `self.unique_parent.get(s_id)` and a
                     `Some(Some(..))` pattern (text of notes/fixes/C12-unreferenced-list-head.diff: an absent
                     key means "no unique parent" -> true)
+  NS_18N, RDF_*, XSD_STRING   the string constants at the end of engine.rs, copied verbatim; the model's own
+                    constants (`rdfFirst`, `nsI18n`, ...) are proved equal to them (`constants_as_in_source`), and
+                    the thresholds of `is_list_node` / `is_compound_literal` (`2 <= node.len() && node.len() <= 3`)
+                    are checked to be the shipped text (listNodeLenMin/Max)
 Anything else fails closed.  `ExtractError`, `read`, `HEADER` are injected by tools/extract.py.
 """
 import re
@@ -30,12 +34,32 @@ def _gen(repo):
         flag = True
     else:
         raise ExtractError("%s: the unique_parent lookup of mark_list_node is neither the shipped nor the fixed text" % REL)
+    consts = {}
+    for name in ("NS_18N", "RDF_DIRECTION", "RDF_FIRST", "RDF_JSON", "RDF_LANGUAGE", "RDF_LIST", "RDF_NIL", "RDF_REST",
+                 "RDF_VALUE", "XSD_STRING"):
+        mm = re.findall(r'^const %s: &str = "([^"\\]*)";$' % name, text, flags=re.M)
+        if len(mm) != 1:
+            raise ExtractError("%s: constant %s not found exactly once in the expected form" % (REL, name))
+        consts[name] = mm[0]
+    lens = {}
+    for fn in ("is_list_node", "is_compound_literal"):
+        mm = re.search(r"\nfn %s\(node: &HashMap<Box<str>, Vec<RdfObject>>\) -> bool \{\s*(\d+) <= node\.len\(\)\s*&& node\.len\(\) <= (\d+)" % fn, text)
+        if not mm:
+            raise ExtractError("%s: length bounds of %s not in the expected form" % (REL, fn))
+        lens[fn] = (int(mm.group(1)), int(mm.group(2)))
+    if lens["is_list_node"] != lens["is_compound_literal"]:
+        raise ExtractError("%s: is_list_node / is_compound_literal bounds differ: %r" % (REL, lens))
     out = [HEADER, "namespace SophiaModel.Gen.JsonLdFlags\n",
            "/-- `mark_list_node` looks the parent up with `.get(s_id)` (absent key = no unique parent) instead of\n"
            "`self.unique_parent[s_id]` (absent key = panic) -/\n",
-           "def uniqueParentGet : Bool := %s\n" % ("true" if flag else "false"),
-           "end SophiaModel.Gen.JsonLdFlags\n"]
-    return "".join(out), {"uniqueParentGet": flag}
+           "def uniqueParentGet : Bool := %s\n" % ("true" if flag else "false")]
+    out.append("/-- string constants of engrine.rs, verbatim -/\n".replace("engrine", "engine"))
+    for name in sorted(consts):
+        out.append('def %s : String := "%s"\n' % (name, consts[name]))
+    out.append("/-- `lo <= node.len() && node.len() <= hi` in is_list_node and is_compound_literal -/\n")
+    out.append("def nodeLenMin : Nat := %d\ndef nodeLenMax : Nat := %d\n" % lens["is_list_node"])
+    out.append("end SophiaModel.Gen.JsonLdFlags\n")
+    return "".join(out), {"uniqueParentGet": flag, "constants": len(consts), "nodeLen": list(lens["is_list_node"])}
 
 
 EXTRACTORS = {"jsonldflags": ("JsonLdFlags.lean", _gen)}
